@@ -115,6 +115,7 @@ void fmc_oracles(unsigned m) { fmc_omask = m; }
 unsigned fmc_oracle_mask(void) { return fmc_omask; }
 uintptr_t fmc_thread_sp(int t) { return T[t].sp; }
 uint64_t fmc_vticks(void) { return TR->vticks; }
+void fmc_count(uint64_t n) { TR->user_cases += n; }
 
 // ---------------------------------------------------------------- TSO overlay
 static void sb_flush(struct th* t) {
@@ -309,7 +310,8 @@ static void quiescent(void) {
   fmc_finish(V_DEADLOCK, "stuck: every kernel thread is idle or spinning and the harness has not finished");
 }
 
-static void do_yield(int idle) {
+static void do_yield(int kind) {  // 0 polite (spinning), 1 idle (would block), 2 forced by the fairness budget
+  int idle = kind == 1, forced = kind == 2;
   struct th* t = &T[me];
   if (!fmc_is_exploring) return;
   capture_pending(t);
@@ -321,7 +323,7 @@ static void do_yield(int idle) {
   }
   if (nth < 2 || !others_alive()) {
     if (idle) quiescent();
-    else if (++t->spin_rounds > 8) { t->spin_rounds = 0; quiescent(); }
+    else if (!forced && ++t->spin_rounds > 8) { t->spin_rounds = 0; quiescent(); }
     return;
   }
   t->yielded = 1;
@@ -350,7 +352,7 @@ static void do_yield(int idle) {
         }
     }
     // polite yielder, nobody else can use the cpu
-    if (++t->spin_rounds > 8) {
+    if (!forced && ++t->spin_rounds > 8) {
       int others_idle = 1;
       for (int k = 0; k < nth; k++)
         if (k != me && T[k].alive && !(T[k].yielded)) others_idle = 0;
@@ -392,8 +394,12 @@ static void sched_point(void* addr, int sz, int w, int always, void* pc, int flu
   int shared_loc = 1;
   if (addr) {
     oracle_access(addr, sz, w, pc);
-    shared_loc = note_access(addr, w, sh);
-    if (sz > 8) shared_loc |= note_access((char*)addr + 8, w, sh);
+    if (nth >= 2) {
+      shared_loc = note_access(addr, w, sh);
+      if (sz > 8) shared_loc |= note_access((char*)addr + 8, w, sh);
+    } else {
+      shared_loc = 0;  // a single kernel thread: nothing to conflict with
+    }
   }
   if (fmc_tracing > 1) fmc_rawlog("[%lu] T%d %s %p sz=%d pc=%p\n", (unsigned long)TR->steps, me, w ? "W" : "R", addr, sz, pc);
   int in_S = always || !fmc_use_site_filter || SH->site_shared[sh];
@@ -403,10 +409,13 @@ static void sched_point(void* addr, int sz, int w, int always, void* pc, int flu
   if (fmc_tso && !flush && t->sb.n && others_alive()) {
     if (choose(K_COMMIT, 3, 0, 0, sh) == 1) sb_flush(t);
   }
-  if (++t->nop > fmc_L0 || ++t->run > fmc_L) {
+  int nop_hit = ++t->nop > fmc_L0;
+  if (nop_hit || ++t->run > fmc_L) {
     t->run = 0;
-    TRC("[%lu] T%d forced yield\n", (unsigned long)TR->steps, me);
-    do_yield(0);
+    TRC("[%lu] T%d forced yield (%s)\n", (unsigned long)TR->steps, me, nop_hit ? "no progress" : "time slice");
+    // no value-changing shared write for L0 operations = spinning (polite yield, counts
+    // towards livelock detection); an exhausted time slice is just a free switch
+    do_yield(nop_hit ? 0 : 2);
   } else if (nth >= 2 && in_S) {
     unsigned mask = 1u << me;
     for (int k = 0; k < nth; k++)
